@@ -458,13 +458,13 @@ def smooth_function(d, outlen, seed):
     return Smooth()
 
 
-def graded_levels(depth_complete, side, extra):
-    """complete tree of the given depth plus `extra` nested points towards one end (same size for side L and R)"""
+def graded_levels(depth_complete, cell, extra):
+    """complete tree of the given depth plus `extra` nested points inside its cell number `cell`, each halving the left-most remaining
+    piece (same size for every cell).  Interior cells are used: points next to the domain boundary make the modified B-splines evaluate
+    two second derivatives per call, which is only slow, not different."""
     base = complete_levels(depth_complete)
     chain = list(range(depth_complete + 1, depth_complete + extra + 1))
-    if side == "L":   # cell next to a: each new point halves the left-most cell; in-order: deepest first
-        return [0] + chain[::-1] + base[1:]
-    return base[:-1] + chain + [0]
+    return base[:cell + 1] + chain[::-1] + base[cell + 1:]
 
 
 def sequence_case(ctx, case, seen=None):
@@ -505,8 +505,8 @@ def sequence_case(ctx, case, seen=None):
 
 def sequence_cases(ctx, quick):
     rng = ctx.rng
-    nine = [graded_levels(2, "L", 4), graded_levels(2, "R", 4), complete_levels(3)]
-    seventeen = [complete_levels(4), graded_levels(3, "L", 8), graded_levels(3, "R", 8)]
+    nine = [graded_levels(2, 1, 4), graded_levels(2, 2, 4), complete_levels(3)]
+    seventeen = [complete_levels(4), graded_levels(3, 1, 8), graded_levels(3, 6, 8)]
     assert all(len(x) == 9 for x in nine) and all(len(x) == 17 for x in seventeen)
     tree_seq = nine + seventeen + [seventeen[0], nine[0]]
     for family in ("lagrange", "bspline"):
